@@ -397,6 +397,11 @@ def slot_code(s):
     return SPECIAL[s]
 
 
+OP_KEYWORD_ORDER = ['b', 'B', 'b*', 'B*', 'BDC', 'BI', 'BMC', 'BT', 'BX', 'c', 'cm', 'CS', 'cs', 'd', 'd0', 'd1', 'Do', 'Do0', 'DP', 'EI',
+                    'EMC', 'ET', 'EX', 'f', 'F', 'f*', 'G', 'g', 'gs', 'h', 'i', 'ID', 'j', 'J', 'K', 'k', 'l', 'm', 'M', 'MP', 'n',
+                    'q', 'Q', 're', 'RG', 'rg', 'ri', 's', 'S', 'SC', 'SCN', 'sc', 'scn', 'sh', 'T*', 'Tc', 'Td', 'TD', 'Tf', 'Tj',
+                    'TJ', 'TL', 'Tm', 'Tr', 'Ts', 'Tw', 'Tz', 'v', 'w', 'W', 'W*', 'y', "'", '"']
+
 EFFECT = {"none": 0, "compat_true": 1, "compat_false": 2, "error": 3, "inline": 4}
 
 
@@ -629,11 +634,15 @@ def extract(g, X):
     def serstr():
         impl = prim[prim.index("impl PdfString {"):]
         b = fn_text(impl, r"pub\s+fn\s+serialize\s*\(", "    ")
-        m = re.search(r"any\(\|&b\|\s*b\s*>=\s*(0x[0-9a-fA-F]+|\d+)\)", b)
-        e = re.search(r"((?:b'(?:\\.|[^'\\])'\s*\|\s*)*b'(?:\\.|[^'\\])')\s*=>\s*write!\(out,\s*r\"\\\"\)", b)
+        (params, expr), = X.closures(b, "any")
+        hexed = X.byte_set(expr, X.closure_var(params), prim)
+        thr = min(hexed)
+        if hexed != set(range(thr, 256)):
+            raise ValueError("hex condition is not a threshold")
+        e = re.search(r"((?:" + X.BYTE + r"\s*\|\s*)*" + X.BYTE + r")\s*=>\s*write!\(\s*\w+\s*,\s*r\"\\\"\s*\)", b)
         if '"{:02x}"' not in b or 'r"("' not in b or 'r")"' not in b or '"<"' not in b or '">"' not in b:
             raise ValueError("string delimiters / hex format changed")
-        return str(X.lit(m.group(1))), clist(str(char_lit(t)) for t in e.group(1).split("|"))
+        return str(thr), clist(str(v) for v in X.ordered(X.pattern_set(e.group(1)), [92, 40, 41]))
     g.attempt([("string_hex_from", "N"), ("string_escaped", "list N")], "primitive.rs:PdfString::serialize", serstr)
 
     add_body = X.fn_body(cont, "add")
@@ -646,7 +655,7 @@ def extract(g, X):
             arm = [b for p, b in arms if re.fullmatch(r'"%s"' % re.escape(kw), p.strip())]
             if len(arm) != 1:
                 raise ValueError("arm " + kw)
-            inner = match_body(arm[0], r"match\s+n\s*\{", "match n")
+            inner = match_body(arm[0], r"match\s+\w+\s*\{", "match on the integer operand")
             out = []
             for p, b in match_arms(inner):
                 if re.fullmatch(r"\d+", p.strip()):
@@ -660,33 +669,68 @@ def extract(g, X):
     g.attempt([("line_cap_codes", "list (N * N)")], "content.rs:OpBuilder::add \"J\"", enum_codes("J", "LineCap"))
     g.attempt([("text_mode_codes", "list (N * N)")], "content.rs:OpBuilder::add \"Tr\"", enum_codes("Tr", "TextMode"))
 
+    RI_ORDER = ["AbsoluteColorimetric", "RelativeColorimetric", "Perceptual", "Saturation"]
+
     def ri():
         impl = types[types.index("impl RenderingIntent"):]
         fs = X.fn_body(impl, "from_str")
         ts = X.fn_body(impl, "to_str")
         to = {}
-        for m in re.finditer(r"RenderingIntent::(\w+)\s*=>\s*\"(\w+)\"", ts):
-            to[m.group(1)] = m.group(2)
+        for arm in X.match_arms(ts, r"\*?\w+"):
+            m = re.fullmatch(r'"(\w+)"', arm.expr)
+            for p in arm.pats:
+                mp = re.fullmatch(r"(?:RenderingIntent|Self)::(\w+)", p)
+                if m and mp:
+                    to[mp.group(1)] = m.group(1)
         out = []
-        for m in re.finditer(r"\"(\w+)\"\s*=>\s*Some\(RenderingIntent::(\w+)\)", fs):
-            out.append("(%s, %s)" % (cbytes(m.group(1)), cbytes(to[m.group(2)])))
+        for arm in X.match_arms(fs, r"\w+"):
+            m = re.fullmatch(r"Some\(\s*(?:RenderingIntent|Self)::(\w+)\s*\)", arm.expr)
+            for p in arm.pats:
+                if m and arm.guard is None and re.fullmatch(r'"\w+"', p):
+                    out.append((p[1:-1], to[m.group(1)]))
         if not out:
             raise ValueError("no arms")
-        return clist(out)
+        # string patterns are disjoint: the order of the arms is immaterial
+        return clist("(%s, %s)" % (cbytes(a), cbytes(b)) for a, b in X.ordered_by_key(out, RI_ORDER))
     g.attempt([("ri_table", "list (list N * list N)")], "types.rs:RenderingIntent::from_str/to_str", ri)
+
+    KEY_ABBR = ["BPC", "CS", "D", "DP", "F", "H", "IM", "I", "W"]
+    CS_ABBR = ["G", "RGB", "CMYK", "I"]
+    FILTER_ABBR = ["AHx", "A85", "LZW", "Fl", "RL", "CCF", "DCT"]
 
     def abbr():
         b = X.fn_body(cont, "inline_image")
-        tabs = re.findall(r"&\[\s*((?:\(\s*\"\w+\"\s*,\s*\"\w+\"\s*\)\s*,?\s*)+)\]", b)
-        if len(tabs) != 3:
-            raise ValueError("expected 3 abbreviation tables, found %d" % len(tabs))
-        res = []
-        for t in tabs:
-            res.append(clist("(%s, %s)" % (cbytes(a), cbytes(r)) for a, r in re.findall(r"\(\s*\"(\w+)\"\s*,\s*\"(\w+)\"\s*\)", t)))
-        # which table is used for what
-        if not re.search(r"expand_abbr_name\(key,\s*&\[", b) or not re.search(r'dict\.get\("ColorSpace"\)', b) or not re.search(r'dict\.remove\("Filter"\)', b):
-            raise ValueError("use of the tables changed")
-        return tuple(res)
+
+        def table(arg, house):
+            """the (abbreviation, full name) pairs of a table given in place (`&[(..), ..]`) or through a const"""
+            t = X.deref(re.sub(r"^&\s*", "", arg.strip()), b, cont)
+            t = re.sub(r"^&\s*", "", t).strip()
+            if not (t.startswith("[") and X.close_of(t, 0) == len(t) - 1):
+                raise ValueError("abbreviation table %r" % arg[:40])
+            rows = []
+            for item in X.split_top(t[1:-1], ","):
+                m = re.fullmatch(r'\(\s*"(\w+)"\s*,\s*"(\w+)"\s*\)', item)
+                if not m:
+                    raise ValueError("table entry %r" % item[:40])
+                rows.append((m.group(1), m.group(2)))
+            return clist("(%s, %s)" % (cbytes(a), cbytes(r)) for a, r in X.ordered_by_key(rows, house))
+
+        def call_args(m):
+            o = m.end() - 1
+            return X.split_top(b[o + 1:X.close_of(b, o)], ",")
+        keys = [call_args(m) for m in re.finditer(r"\bexpand_abbr_name\s*\(", b)]
+        if len(keys) != 1:
+            raise ValueError("expand_abbr_name calls: %d" % len(keys))
+        uses = {}
+        for m in re.finditer(r"\bexpand_abbr\s*\(", b):
+            stmt = b[b.rfind(";", 0, m.start()) + 1:m.start()]
+            k = re.findall(r'\w+\.(?:get|remove)\(\s*"(\w+)"\s*\)', stmt)
+            if len(k) != 1 or k[0] in uses:
+                raise ValueError("use of the tables changed")
+            uses[k[0]] = call_args(m)[1]
+        if sorted(uses) != ["ColorSpace", "Filter"]:
+            raise ValueError("use of the tables changed: %r" % sorted(uses))
+        return table(keys[0][1], KEY_ABBR), table(uses["ColorSpace"], CS_ABBR), table(uses["Filter"], FILTER_ABBR)
     g.attempt([("inline_key_abbr", "list (list N * list N)"), ("inline_cs_abbr", "list (list N * list N)"),
                ("inline_filter_abbr", "list (list N * list N)")], "content.rs:inline_image", abbr)
 
@@ -695,7 +739,23 @@ def extract(g, X):
         b = X.fn_body(impl, "strict")
         m = re.search(r"allow_invalid_ops\s*:\s*(true|false)", b)
         pb = X.fn_body(cont, "parse")
-        if not re.search(r"Err\(e\)\s+if\s+resolve\.options\(\)\.allow_invalid_ops\s*=>", pb):
+        # an error of `self.add(..)` is dropped iff allow_invalid_ops: a guarded `Err(e) if … =>` arm in front of the
+        # returning one, or `if let Err(e) = … { if … { warn } else { return Err(e) } }`
+        consulted = False
+        for arm in X.match_arms(pb, r"self\.add\(.*\)"):
+            pe = re.fullmatch(r"Err\(\s*(\w+)\s*\)", arm.pattern)
+            if not pe:
+                continue
+            if arm.guard is not None:
+                consulted = bool(re.fullmatch(r"\w+\.options\(\)\.allow_invalid_ops", arm.guard)) and "return" not in arm.expr
+                break
+            mi = re.match(r"if\s+\w+\.options\(\)\.allow_invalid_ops\s*\{", arm.expr)
+            if mi:
+                c = X.close_of(arm.expr, mi.end() - 1)
+                consulted = ("return" not in arm.expr[mi.end():c] and
+                             bool(re.fullmatch(r"\s*else\s*\{\s*return\s+Err\(\s*" + pe.group(1) + r"\s*\)\s*;?\s*\}\s*", arm.expr[c + 1:])))
+            break
+        if not consulted:
             raise ValueError("OpBuilder::parse no longer consults allow_invalid_ops")
         return m.group(1)
     g.attempt([("allow_invalid_ops_strict", "bool")], "object/mod.rs:ParseOptions::strict", invalid_ops)
@@ -748,12 +808,14 @@ def extract(g, X):
             else:
                 eff = "[%d]" % EFFECT[effect]
             for kw in kws:
-                out.append("(%s, (%s, (%s, %s)))" % (
+                out.append((kw, "(%s, (%s, (%s, %s)))" % (
                     cbytes(kw), cbytes(shape),
-                    clist("(%d, %s)" % (c, clist(str(slot_code(s)) for s in sl)) for c, sl in pushes), eff))
+                    clist("(%d, %s)" % (c, clist(str(slot_code(s)) for s in sl)) for c, sl in pushes), eff)))
         if seen_catch != 2:
             raise ValueError("catch-all arms: %d" % seen_catch)
-        return clist(out)
+        # the string patterns are disjoint (a keyword listed twice is an error), so the order of the arms is immaterial:
+        # rows are listed in the order Generated.v has always had (OP_KEYWORD_ORDER), unknown keywords after them
+        return clist(row for _, row in X.ordered_by_key(out, OP_KEYWORD_ORDER))
     g.attempt([("op_read_table", "list (list N * (list N * (list (N * list N) * list N)))")],
               "content.rs:OpBuilder::add", read_table)
 
